@@ -67,7 +67,7 @@ def slen(v):
     v = deref(v)
     if type(v) is str:
         return len(v.encode('utf-8'))
-    if type(v) is AbsStr:
+    if isinstance(v, AbsStr):
         return v.n
     if type(v) is StringV:
         if v.s is None:
@@ -318,6 +318,7 @@ class BTreeV:
 class Models:
     def __init__(self):
         self.overrides = []      # (regex, handler) harness stubs, first match wins
+        self.pre_hooks = []      # callables (it, ci, args, dest_ty) -> value | NotImplemented
         self.called = {}         # model key -> count (evidence: which models/stubs were used)
         self.mir_called = {}
 
@@ -351,6 +352,10 @@ class Models:
     # -- main entry ----------------------------------------------------------------------------
     def dispatch(self, it, ci, args, dest_ty):
         path = ci.path
+        for hk in self.pre_hooks:
+            r = hk(it, ci, args, dest_ty)
+            if r is not NotImplemented:
+                return r
         for rx, fn in self.overrides:
             if rx.search(path):
                 self.called['override:' + rx.pattern] = self.called.get('override:' + rx.pattern, 0) + 1
@@ -569,7 +574,7 @@ class Models:
             if t.s is None:
                 return AbsStr(t.n)
             return sv(t)
-        if type(t) is str or type(t) is AbsStr:
+        if type(t) is str or isinstance(t, AbsStr):
             return t
         if type(t) is PathV:
             return v if type(v) is Ref else t
@@ -807,7 +812,7 @@ class AbsChars:
 @model('str::chars')
 def _(it, ci, a, d):
     v = deref(a[0])
-    if type(v) is AbsStr or (type(v) is StringV and v.s is None):
+    if isinstance(v, AbsStr) or (type(v) is StringV and v.s is None):
         return Opaque('AbsChars', AbsChars(slen(v)))
     return Opaque('Chars', PyIter([Char(c) for c in sv(a[0])]))
 
@@ -2107,3 +2112,28 @@ def _(it, ci, a, d):
 @model('str::bytes')
 def _(it, ci, a, d):
     return Opaque('Bytes', PyIter(list(sv(a[0]).encode('utf-8'))))
+
+
+# ---- panics
+def _panic(msg):
+    def h(it, ci, a, d):
+        detail = ''
+        try:
+            if a and type(a[0]) is str:
+                detail = ': ' + a[0]
+        except Exception:
+            pass
+        raise RustPanic(msg + detail, ci.path[:80])
+    return h
+
+
+for _k, _m in [('panicking::assert_failed', 'assertion `left == right` failed'), ('panicking::panic', 'explicit panic'),
+               ('panicking::panic_fmt', 'panic'), ('panicking::panic_display', 'panic'), ('panicking::panic_explicit', 'explicit panic'),
+               ('panicking::panic_bounds_check', 'index out of bounds'), ('panicking::panic_nounwind', 'panic'),
+               ('panicking::unreachable_display', 'entered unreachable code'), ('panicking::panic_str', 'panic'),
+               ('option::unwrap_failed', 'called `Option::unwrap()` on a `None` value'), ('option::expect_failed', 'expect failed'),
+               ('result::unwrap_failed', 'called `Result::unwrap()` on an `Err` value'),
+               ('rt::begin_panic', 'panic'), ('panicking::begin_panic', 'panic'),
+               ('str::slice_error_fail', 'str slice index error'), ('index::slice_index_order_fail', 'slice index starts after end'),
+               ('index::slice_end_index_len_fail', 'range end index out of range'), ('index::slice_start_index_len_fail', 'range start index out of range')]:
+    TABLE[_k] = _panic(_m)
